@@ -18,6 +18,7 @@ NEAR_MISSES = ['application/jsonx', 'application/x-json', 'text/json', 'applicat
                'json', 'application/ld+json', 'application/jsonrequests', 'application', 'application/json+rpc']
 UNRELATED = ['text/plain', 'application/xml', 'application/x-www-form-urlencoded', 'multipart/form-data; boundary=x', 'application/octet-stream',
              'text/html; charset=utf-8', '*/*', '']
+CONFIGURED_DEFAULTS = ['application/json-rpc', 'application/vnd.acme.rpc', 'text/plain', 'application/jsonrequest']
 BAD_BODIES = ['ff-fe', 'latin1-call', 'truncated-multibyte', 'lone-continuation']
 
 
@@ -58,7 +59,8 @@ class C18(Check):
     required_classes = ['media/documented-bare', 'media/documented-params', 'media/case-variant', 'media/near-miss', 'media/unrelated', 'media/missing',
                         'body/non-utf8', 'body/nothing-returned', 'body/batch', 'body/not-json', 'status/non-default', 'endpoint/prefix',
                         'integration/aiohttp', 'integration/flask', 'integration/werkzeug', 'codec/custom', 'codec/custom/took-effect',
-                        'endpoint/prefix-registered-with-trailing-slash', 'endpoint/on-subapp-or-blueprint']
+                        'endpoint/prefix-registered-with-trailing-slash', 'endpoint/on-subapp-or-blueprint', 'status/function-consulting-a-table',
+                        'config/default-content-type', 'config/default-content-type/posted']
 
     def strategy(self, tier: str):
         reg = stdreg.std_registry('sync') + [httpapps.where_method('base', 'sync'), httpapps.where_method('sub', 'sync')] * 3
@@ -70,16 +72,18 @@ class C18(Check):
             st.builds(lambda t, p: t.upper() + p, st.sampled_from(DOCUMENTED), st.sampled_from(PARAMS[:3])),
             st.builds(lambda t: t.title(), st.sampled_from(DOCUMENTED)),
             st.builds(lambda t, p: t + p, st.sampled_from(NEAR_MISSES), st.sampled_from(PARAMS[:2])),
-            st.sampled_from(UNRELATED), st.none(),
+            st.sampled_from(UNRELATED), st.none(), st.just('$default'),
         )
         s_body = st.one_of(st.builds(lambda d: {'text': d}, doc), st.builds(lambda d: {'text': d}, doc), st.builds(lambda d: {'text': d}, doc),
                            st.builds(lambda b: {'bytes': b}, st.sampled_from(BAD_BODIES)))
         return st.builds(
-            lambda m, b, s, e, beh, base, codec, ps: {'media': m, 'body': b, 'status': s, 'endpoint': e, 'behaviours': beh, 'base': base, 'codec': codec,
+            lambda m, b, s, e, beh, base, codec, ps, dct, tbl: {'media': m, 'body': b, 'status': s, 'endpoint': e, 'behaviours': beh, 'base': base, 'codec': codec,
+                                                      'default_ct': dct, 'table': tbl,
                                                       'prefix_style': ps, 'nested': ps == 'plain' and codec == 'default' and s == 'default' and e == 'prefix' and len(beh) % 2 == 0},
             s_media, s_body, st.sampled_from(['default', 'default'] + [k for k in httpapps.STATUS_FUNCS if k != 'default']),
             st.sampled_from(['base', 'base', 'prefix']), stdreg.behaviours(), st.sampled_from(['/api', '/api/v1', '/rpc']),
             st.sampled_from(['default', 'default', 'custom']), st.sampled_from(['plain', 'trailing-slash']),
+            st.sampled_from([None, None, None, None] + CONFIGURED_DEFAULTS), st.sampled_from([[500, 200], [503, 202], [422, 200], [500, 203], [200, 200]]),
         )
 
     def corpus(self):
@@ -101,11 +105,31 @@ class C18(Check):
             {**base, 'media': 'application/json', 'endpoint': 'prefix', 'prefix_style': 'trailing-slash', 'body': t(call)},
             {**base, 'media': 'application/json', 'endpoint': 'prefix', 'nested': True, 'body': t([call, {'jsonrpc': '2.0', 'id': 2, 'method': 'where_sub'}])},
             {**base, 'media': 'application/json', 'endpoint': 'base', 'nested': True, 'body': t(call)},
+            {**base, 'media': '$default', 'default_ct': 'application/vnd.acme.rpc', 'body': t(call)},
+            {**base, 'media': 'text/plain', 'body': t(call)},
+            {**base, 'media': 'application/json', 'default_ct': 'text/plain', 'body': t(call)},
+            {**base, 'media': 'application/json', 'status': 'table', 'table': [500, 200], 'body': t({'jsonrpc': '2.0', 'id': 2, 'method': 'nope'})},
+            {**base, 'media': 'application/json', 'status': 'table', 'table': [503, 202], 'body': t({'jsonrpc': '2.0', 'id': 2, 'method': 'nope'})},
             {**base, 'media': 'APPLICATION/JSON', 'status': 'any-error-500', 'body': t([call, {'jsonrpc': '2.0', 'id': 2, 'method': 'nope'}])},
         ]
 
     def run_case(self, spec: Any) -> Outcome:
+        # the application may configure another default content type (what the library's clients send and its servers answer with);
+        # the set of request media types a server accepts is documented separately and does not follow it
+        import pjrpc.common
+        default_ct = spec.get('default_ct')
+        httpapps.STATUS_TABLE.update(zip(('error', 'ok'), spec.get('table') or (500, 200)))
+        try:
+            if default_ct:
+                pjrpc.common.set_default_content_type(default_ct)
+            return self._run_case(spec)
+        finally:
+            pjrpc.common.DEFAULT_CONTENT_TYPE = 'application/json'
+
+    def _run_case(self, spec: Any) -> Outcome:
         media = spec['media']
+        if media == '$default':
+            media = spec.get('default_ct') or 'application/json'
         body_spec = spec['body']
         if 'bytes' in body_spec:
             body, text = bad_body(body_spec['bytes']), None
@@ -122,7 +146,7 @@ class C18(Check):
         discs: List[Disc] = []
         observations: Dict[str, Tuple[int, Any]] = {}
         evaluations = 0
-        where0 = f"media={media!r} status_fn={spec['status']} endpoint={spec['endpoint']} body={(text if text is not None else repr(body))[:250]!r}"
+        where0 = f"media={media!r} status_fn={spec['status']}{httpapps.STATUS_TABLE if spec['status'] == 'table' else ''} configured_default={spec.get('default_ct')!r} endpoint={spec['endpoint']} body={(text if text is not None else repr(body))[:250]!r}"
         for integration in ('aiohttp', 'flask', 'werkzeug'):
             status_name = spec['status'] if integration != 'werkzeug' else 'default'
             endpoint = spec['endpoint'] if integration != 'werkzeug' else 'base'
@@ -177,7 +201,8 @@ class C18(Check):
                     discs.append(Disc(f"C18/{integration}/body-not-json", f"{raw[:200]!r}: {e} | {where}"))
                 if not jg.jeq(got_doc, want_doc):
                     discs.append(Disc(f"C18/{integration}/body-differs-from-dispatcher", f"http {jg.short(got_doc)} dispatcher {jg.short(want_doc)} | {where}"))
-                if (ctype or '').split(';')[0].strip().lower() != 'application/json':
+                # with a configured default flask and werkzeug answer with it while aiohttp keeps application/json: either is accepted
+                if (ctype or '').split(';')[0].strip().lower() not in ('application/json', (spec.get('default_ct') or 'application/json').lower()):
                     discs.append(Disc(f"C18/{integration}/reply-content-type", f"{ctype!r} | {where}"))
             if codec != 'default' and direct is not None:
                 # the same registry behind a dispatcher outside any integration, configured with the same encoder / decoder classes
@@ -231,6 +256,12 @@ class C18(Check):
             single_valid_call = exp.klass == 'doc/single-call' and exp.elements[0].outcome == 'result'
         if spec['status'] != 'default':
             classes.append('status/non-default')
+        if spec['status'] == 'table':
+            classes.append('status/function-consulting-a-table')
+        if spec.get('default_ct'):
+            classes.append('config/default-content-type')
+            if spec['media'] == '$default' or mimetype == spec['default_ct']:
+                classes.append('config/default-content-type/posted')
         if spec['endpoint'] == 'prefix':
             classes.append('endpoint/prefix')
             if spec.get('prefix_style', 'plain') != 'plain':
